@@ -41,10 +41,13 @@ PCS = [["shampoo", {}], ["soap", {}], ["soap", {"method": "qr", "iters": 2}]]
 M_ALL, M_FIRST, M_SECOND, M_NONE = [1, 1, 1], [1, 0, 0], [0, 1, 1], [0, 0, 0]
 H1 = [M_ALL, M_ALL, M_ALL, M_FIRST, M_FIRST, M_SECOND, M_NONE, M_ALL, M_NONE, M_NONE, M_FIRST, M_ALL]
 H2 = [M_FIRST, M_SECOND, M_SECOND, M_ALL, M_SECOND, M_FIRST, M_NONE, M_SECOND, M_NONE, M_FIRST, M_ALL, M_FIRST]
+# a parameter without gradient exactly at the first refresh (start = 2), present again before the next one
+H3 = [M_ALL, M_SECOND, M_ALL, M_FIRST, M_ALL, M_NONE, M_FIRST, M_SECOND, M_ALL, M_ALL]
+HISTS = (H1, H2, H3)
 
 
 def bounds(tier):
-    return {"max_deviations": 1 if tier == "quick" else 2, "histories_per_config": 2, "history_length": 12}
+    return {"max_deviations": 1 if tier == "quick" else 2, "histories_per_config": 3, "history_length": "10-12"}
 
 
 def configs(tier, seed):
@@ -81,6 +84,18 @@ def work(tier, seed):
                     if tier == "quick" and (i + seed) % 15 != 0:
                         continue
                     units.append({"cfg": to_cfg(d, pc, seed), "backend": backend, "mode": mode})
+    # several parameter groups whose boolean options differ (one compiled step per optimizer, flags passed per group)
+    flips = [{"nesterov": True}, {"decoupled": False}, {"bias_corr": False}, {"graft": None}, {"momentum": 0.25, "nesterov": True, "wd": 0.25}]
+    for bi, base in enumerate(BASE[1:]):
+        for fi, fl in enumerate(flips):
+            over = {k: (not to_cfg(base, PCS[0], seed)[k] if isinstance(v, bool) else v) for k, v in fl.items()}
+            for pi, pc in enumerate(PCS):
+                for backend in ("eager", "aot_eager"):
+                    if tier == "quick" and (bi + fi + pi + (backend == "eager")) % 4 != 0:
+                        continue
+                    cfg = to_cfg(base, pc, seed)
+                    cfg["groups"] = [{"params": [0, 2], "over": {}}, {"params": [1], "over": over}]
+                    units.append({"cfg": cfg, "backend": backend, "mode": False})
     return units
 
 
@@ -151,7 +166,7 @@ def check(cfg, backend, mode, hist):
 
 def run_unit(unit):
     res = {"evals": 0, "transitions": 0, "states": set(), "outcomes": set(), "nontrivial_count": 0, "violations": [], "samples": [], "stats": {"compiled_graphs": 0, "min_graphs_per_run": 10 ** 6}}
-    for hi, hist in enumerate((H1, H2)):
+    for hi, hist in enumerate(HISTS):
         msgs, digests, graphs = check(unit["cfg"], unit["backend"], unit["mode"], hist)
         res["evals"] += 1
         res["transitions"] += len(digests)
